@@ -258,6 +258,10 @@ type genOpts struct {
 	evalFail    bool // expressions that can fail at run time (absent optional input, failing conversion, division by zero)
 	closureMs   int  // > 0: every step gets this closure_wait_timeout (keeps cancelled runs short)
 	litGates    bool // some steps get a LITERAL `enabled` (a spelling of the bool schema: the provider receives a string)
+	// multiRef: single expressions with SEVERAL step references, one of them already referenced by another expression of the
+	// same stage (input field, wait_for), optional members with several sources, and a !wait-optional next to a !soft-optional
+	// member on the same source (extra random draws happen only when the option is set: other streams keep their cases)
+	multiRef bool
 }
 
 func stepName(i int) string { return fmt.Sprintf("s%d", i) }
@@ -333,6 +337,30 @@ func genWorkflow(r *rng, o genOpts) *AWf {
 				in.put("s", expr("$.input.lst[2]"))
 			}
 		}
+		if o.multiRef && i >= 2 && r.chance(1, 2) {
+			j := r.intn(i)
+			k := (j + 1 + r.intn(i-1)) % i
+			a := fmt.Sprintf("$.steps.%s.outputs.success.s", stepName(j))
+			b := fmt.Sprintf("$.steps.%s.outputs.success.s", stepName(k))
+			two := fmt.Sprintf("splitString(%s, %s)", a, b)
+			switch r.intn(4) {
+			case 0: // `s` connects j first, then one expression needs j (already connected) and k
+				in.put("s", expr(a))
+				in.put("l", expr(two))
+			case 1: // the same through wait_for (a list: processed in order)
+				in.put("s", expr(a))
+				s.Fields["wait_for"] = AIn{K: "list", List: []AIn{expr(fmt.Sprintf("splitString(%s, \"-\")", a)), expr(two)}}
+			case 2: // an optional member with two sources
+				if o.tags {
+					in.put("l", AIn{K: "optional", Wait: r.chance(1, 2), Src: two})
+				} else {
+					in.put("l", expr(two))
+				}
+			default: // the reference that is already connected comes second
+				in.put("s", expr(b))
+				in.put("l", expr(two))
+			}
+		}
 		s.Fields["input"] = in
 		if o.waitFor && i > 0 && r.chance(1, 3) {
 			j := r.intn(i)
@@ -391,6 +419,17 @@ func genWorkflow(r *rng, o genOpts) *AWf {
 			}
 		default:
 			succ.put(key, expr(ref+".i"))
+		}
+	}
+	if o.multiRef && o.tags && r.chance(1, 2) {
+		// one object holding a !wait-optional and a !soft-optional member on the SAME source, and an optional with two sources
+		j := r.intn(n)
+		ref := fmt.Sprintf("$.steps.%s.outputs.success", stepName(j))
+		succ.put("w0", AIn{K: "optional", Wait: true, Src: ref + ".s"})
+		succ.put("w1", AIn{K: "optional", Wait: false, Src: ref + ".i"})
+		if n >= 2 {
+			k := (j + 1 + r.intn(n-1)) % n
+			succ.put("w2", AIn{K: "optional", Wait: true, Src: fmt.Sprintf("splitString(%s.s, $.steps.%s.outputs.success.s)", ref, stepName(k))})
 		}
 	}
 	w.OutputIDs = append(w.OutputIDs, "success")
